@@ -171,6 +171,14 @@ Theorem C03_element_is_block :
 Proof. exact elem_block. Qed.
 Print Assumptions C03_element_is_block.
 
+(* ... hence a unit of the group grammar of C01_parse_groups: such elements may stand inside parenthesised,
+   repeated, nested groups (token level; example below) *)
+Theorem C03_element_is_group_unit :
+  forall (jsx : bool) (pos : nat) (e : selem),
+    selem_ok e -> jsx_ok jsx e -> unit_toks jsx (GE (elem_leaf pos e)) (elem_toks pos e).
+Proof. exact elem_group_unit. Qed.
+Print Assumptions C03_element_is_group_unit.
+
 (* ... and the corollary at text level: a flat statement e1 op1 e2 ... en (op = `>`, `+`, `^`...) of such
    elements tokenizes and parses; the parsed tree has the depth list the operators denote ([edenote]:
    `>` one deeper, `+` same level, each `^` one up), and the element at every place converts to ONE
@@ -391,3 +399,17 @@ Proof.
   - repeat constructor; try discriminate.
   - repeat constructor.
 Qed.
+
+(* non-vacuity of the group corollary: `(a.x>b[c=1])*2+d#e` as tokens satisfies [gflat], so C01_parse_groups applies *)
+Example C03_group_nonvacuous :
+  let a := mkSElem (S "a") [PClass (S "x")] None false in
+  let b := mkSElem (S "b") [PSet [mkSAttr false (S "c") false (SUnq (S "1"))]] None false in
+  let d := mkSElem (S "d") [PId (S "e")] None false in
+  let br o p := mkTok (TBracket o BGroup) p (p + 1) in
+  let op o p := mkTok (TOperator o) p (p + 1) in
+  let rp := mkTok (TRepeater 2 0 false) 13 15 in
+  gflat false
+    [(GG [(GE (elem_leaf 1 a), SChild); (GE (elem_leaf 5 b), SSibling)] (Some (mkRep 2 0 false)), SSibling);
+     (GE (elem_leaf 16 d), SSibling)]
+    ((br true 0 :: (elem_toks 1 a ++ [op OpChild 4] ++ elem_toks 5 b) ++ br false 12 :: [rp]) ++ [op OpSibling 15] ++ elem_toks 16 d).
+Proof. exact group_of_attribute_elements. Qed.
